@@ -292,6 +292,19 @@ func (s *atpServerSession) handleSignalMessage(runID string, signalMessage Signa
 	}
 	s.wg.Add(1) // Wait until the signal handler is done
 	go func() {
+		defer s.wg.Done()
+		defer func() {
+			// Handle and properly report panics; an unrecovered panic here would end the whole process.
+			if r := recover(); r != nil {
+				s.workDone <- ServerError{
+					RunID: runID,
+					Err: fmt.Errorf("panic while running signal ID %s with Run ID '%s': (%v)",
+						signalMessage.SignalID, runID, r),
+					StepFatal:   false,
+					ServerFatal: false,
+				}
+			}
+		}()
 		if err := s.pluginSchema.CallSignal(
 			s.ctx,
 			runID,
@@ -307,7 +320,6 @@ func (s *atpServerSession) handleSignalMessage(runID string, signalMessage Signa
 				ServerFatal: false,
 			}
 		}
-		s.wg.Done()
 	}()
 }
 
